@@ -1481,6 +1481,77 @@ func carrier(o *hx.Out, ctx, kind string, doc *c01x.Tree, file bool, name []byte
 	}
 }
 
+// carrierSNBT: the third carrier of the property, nbt.StringifiedMessage (predicate only: its text form is
+// C04's model).  Documents stay inside what SNBT text represents exactly: integers of every width with negative
+// values, byte / int / long arrays (bytes >= 0x80 included), ASCII strings and keys, nested compounds and
+// non-empty lists - decode into a StringifiedMessage at the root / in a struct field / in a map / in a list, encode
+// again, and the document must come back byte for byte.
+func snbtDoc(r *hx.Rng, depth int) *c01x.Tree {
+	t := &c01x.Tree{Kind: c01x.Compound}
+	add := func(k string, v *c01x.Tree) { t.Keys = append(t.Keys, []byte(k)); t.List = append(t.List, v) }
+	add("b", &c01x.Tree{Kind: c01x.Byte, I: int64(int8(r.Next()))})
+	add("s", &c01x.Tree{Kind: c01x.Short, I: int64(int16(r.Next()))})
+	add("i", &c01x.Tree{Kind: c01x.Int, I: int64(int32(r.Next()))})
+	add("l", &c01x.Tree{Kind: c01x.Long, I: int64(r.Next())})
+	ba := r.Bytes(1 + r.Intn(5))
+	ba[0] = byte(r.Pick(0x7f, 0x80, 0xff, 0x81, 0x00))
+	add("ba", &c01x.Tree{Kind: c01x.ByteArray, Bytes: ba})
+	ia := &c01x.Tree{Kind: c01x.IntArray}
+	la := &c01x.Tree{Kind: c01x.LongArray}
+	for i, n := 0, 1+r.Intn(3); i < n; i++ {
+		ia.Ints = append(ia.Ints, int64(int32(r.Next())))
+		la.Ints = append(la.Ints, int64(r.Next()))
+	}
+	add("ia", ia)
+	add("la", la)
+	add("str", &c01x.Tree{Kind: c01x.String, Bytes: []byte([]string{"plain", "with space", "123", "", "q\"uote", "true"}[r.Intn(6)])})
+	li := &c01x.Tree{Kind: c01x.List, Eid: c01x.Short}
+	for i, n := 0, 1+r.Intn(3); i < n; i++ {
+		li.List = append(li.List, &c01x.Tree{Kind: c01x.Short, I: int64(int16(r.Next()))})
+	}
+	add("li", li)
+	if depth > 0 {
+		add("sub", snbtDoc(r, depth-1))
+	}
+	return t
+}
+
+func carrierSNBT(o *hx.Out, ctx string, doc *c01x.Tree, file bool, name []byte) {
+	var sm nbt.StringifiedMessage
+	var dst any
+	switch ctx {
+	case "root":
+		dst = &sm
+	case "field":
+		dst = &struct {
+			F nbt.StringifiedMessage `nbt:"F"`
+		}{}
+		doc = &c01x.Tree{Kind: c01x.Compound, Keys: [][]byte{[]byte("F")}, List: []*c01x.Tree{doc}}
+	case "map":
+		dst = &map[string]nbt.StringifiedMessage{}
+		doc = &c01x.Tree{Kind: c01x.Compound, Keys: [][]byte{[]byte("only")}, List: []*c01x.Tree{doc}}
+	case "list":
+		dst = &[]nbt.StringifiedMessage{}
+		doc = &c01x.Tree{Kind: c01x.List, Eid: c01x.Compound, List: []*c01x.Tree{doc, doc}}
+	}
+	data := doc.Doc(file, name)
+	desc := clip(fmt.Sprintf("fmt=%s ctx=%s carrier=snbt doc=%s", fmtName(file), ctx, hx.Hex(data)))
+	o.Eval("carrier.snbt."+ctx, true, desc)
+	_, left, derr, dpan := decode(data, file, dst)
+	if dpan != "" || derr != nil || left != 0 {
+		o.Fail("C02.carrier.snbt."+ctx+".decode", "%s err=%v left=%d panic=%q", desc, derr, left, dpan)
+		return
+	}
+	out, err, pan := encode(reflect.ValueOf(dst).Elem().Interface(), file, string(name))
+	if pan != "" || err != nil {
+		o.Fail("C02.carrier.snbt."+ctx+".encode", "%s err=%v panic=%q text-root=%q", desc, err, pan, string(sm))
+		return
+	}
+	if !bytes.Equal(out, data) {
+		o.Fail("C02.carrier.snbt."+ctx, "%s out=%s", desc, clip(hx.Hex(out)))
+	}
+}
+
 // ---------------------------------------------------------------- fixed types with embedding (predicate only)
 
 type Inner struct {
@@ -2108,6 +2179,16 @@ func main() {
 			carrier(o, "map", kind, m, file, name)
 			l := c01x.GenDoc(r, c01x.List)
 			carrier(o, "list", kind, l, file, name)
+		}
+	}
+	for i := 0; i < o.N(60, 10); i++ {
+		file := r.Bool()
+		var name []byte
+		if file {
+			name = names[r.Intn(len(names))]
+		}
+		for _, ctx := range []string{"root", "field", "map", "list"} {
+			carrierSNBT(o, ctx, snbtDoc(r, i%2), file, name)
 		}
 	}
 	// 4. embedding through named helper types (predicate only: not in the model's universe)
